@@ -603,7 +603,8 @@ def parse_docstring(
     # fetch the parser function
     try:
         parser = get_parser_by_name(docformat, obj)
-    except ImportError as e:
+    except (ImportError, AttributeError) as e:
+        # AttributeError: the name is the one of a module that is not a parser.
         _err = 'Error trying to import %r parser:\n\n    %s: %s\n\nUsing plain text formatting only.'%(
             docformat, e.__class__.__name__, e)
         obj.system.msg('epydoc2stan', _err, thresh=-1, once=True)
